@@ -13,6 +13,7 @@
 #include <symengine/logic.h>
 #include <symengine/polys/msymenginepoly.h>
 using namespace SymEngine;
+static std::vector<RCP<const MIntPoly>> mpoly_pool();
 static std::vector<RCP<const Basic>> composite_pool(const std::string &obl)
 {
     RCP<const Basic> x = symbol("x"), y = symbol("y"), z = symbol("z");
@@ -29,6 +30,7 @@ static std::vector<RCP<const Basic>> composite_pool(const std::string &obl)
         std::vector<vec_basic> as = {{x}, {y}, {x, y}, {y, x}, {x, y, z}, {x, x, x}, {big, x}, {integer(5), x}};
         for (auto &v : as) objs.push_back(function_symbol("f", v));
     }
+    else if (obl.find(".MIntPoly.") != std::string::npos) { for (auto &m : mpoly_pool()) objs.push_back(m); }
     else if (obl.find(".Add.") != std::string::npos) {
         std::vector<RCP<const Basic>> sums = {add(x, y), add(x, mul(integer(2), y)), add(add(x, y), z)};
         for (auto &s : sums) { objs.push_back(s); objs.push_back(sub(add(s, real_double(1.5)), real_double(1.5))); objs.push_back(add(s, integer(1))); objs.push_back(add(s, real_double(1.0))); objs.push_back(sub(add(s, integer(3)), integer(3))); }
@@ -56,7 +58,7 @@ static int composite_search(const std::string &obl, bool order_axioms)
 }
 // C01.MIntPoly.*: every pair of a pool of small real MIntPoly objects over the variable sets {}, {x}, {y}, {x,y}.
 // Pairs of constant polynomials over different variable sets (eq by design) are part of the pool.
-static int mpoly_search(const std::string &obl)
+static std::vector<RCP<const MIntPoly>> mpoly_pool()
 {
     RCP<const Basic> x = symbol("x"), y = symbol("y");
     std::vector<vec_basic> vs = {{}, {x}, {y}, {x, y}};
@@ -71,6 +73,11 @@ static int mpoly_search(const std::string &obl)
             for (auto &e2 : es) if (e1 < e2) o.push_back(MIntPoly::from_dict(v, {{e1, integer_class(c)}, {e2, integer_class(3)}}));
         }
     }
+    return o;
+}
+static int mpoly_search(const std::string &obl)
+{
+    std::vector<RCP<const MIntPoly>> o = mpoly_pool();
     std::cout << "searching " << o.size() << " MIntPoly objects\n";
     auto constant = [](const MIntPoly &p) { if (p.get_poly().dict_.size() > 1) return false; for (auto &t : p.get_poly().dict_) for (auto k : t.first) if (k) return false; return true; };
     for (auto &a : o) for (auto &b : o) {
@@ -89,6 +96,6 @@ static int mpoly_search(const std::string &obl)
 }
 static bool is_composite_obligation(const std::string &obl)
 {
-    for (const char *k : {".Pow.", ".Interval.", ".TwoArgBasic.", ".OneArgFunction.", ".Add.", ".ordered_compare.", ".Complement.", ".Contains."}) if (obl.find(k) != std::string::npos) return true;
+    for (const char *k : {".Pow.", ".Interval.", ".TwoArgBasic.", ".OneArgFunction.", ".Add.", ".ordered_compare.", ".Complement.", ".Contains.", ".MIntPoly.cmp."}) if (obl.find(k) != std::string::npos) return true;
     return false;
 }
